@@ -73,14 +73,29 @@ osrc_get(void *drv, void *out)
 }
 
 struct csink {
-    unsigned char buf[32];
+    unsigned char buf[64];
     size_t n;
+    size_t maxper;      /* takes at most this many octets per call (0: all) */
+    struct csink *wrap; /* set: every chunk is forwarded as [varint length][octets] to this one through the library */
+    Sink *wrapsink;
 };
+
+static int api_to_sink(int t, Sink *s, uint64_t v);
 
 static ssize_t
 csink_put(void *drv, const void *p, size_t n)
 {
     struct csink *s = drv;
+    if (s->maxper && n > s->maxper)
+        n = s->maxper;
+    if (s->wrap) {
+        /* a nested encoder call while the outer one is still at work */
+        int rc = api_to_sink((int)(n & 3), s->wrapsink, (uint64_t)n);
+        if (rc < 0)
+            return rc;
+        ssize_t w = sink_put_chunk(s->wrapsink, p, n);
+        return w < 0 ? w : (ssize_t)n;
+    }
     if (s->n + n > sizeof s->buf)
         return -ENOMEM;
     memcpy(s->buf + s->n, p, n);
@@ -196,6 +211,41 @@ roundtrip(int t, uint64_t v)
     if (rc < 0 || cs.n != (size_t)rn || memcmp(cs.buf, ref, (size_t)rn) != 0)
         vh_fail("to-sink", key, "value=%016" PRIx64 " rc=%d sink=%s expected %s", v, rc, vh_hex(cs.buf, cs.n),
                 vh_hex(ref, (size_t)rn));
+    /* the same into a sink that takes a few octets per call, and into one that frames what it is handed with a
+     * varint of its own (nested encoder call) */
+    {
+        static unsigned rot;
+        struct csink part = { .n = 0, .maxper = 1 + rot++ % 3 };
+        chunk_sink_init(&sink, csink_put, &part);
+        rc = api_to_sink(t, &sink, v);
+        if (rc < 0 || part.n != (size_t)rn || memcmp(part.buf, ref, (size_t)rn) != 0)
+            vh_fail("to-sink", key, "value=%016" PRIx64 " into a sink taking %zu octets per call: rc=%d sink=%s expected %s", v, part.maxper,
+                    rc, vh_hex(part.buf, part.n), vh_hex(ref, (size_t)rn));
+        struct csink lower = { .n = 0 }, tun = { .n = 0, .maxper = rot % 4 };
+        Sink lowersink;
+        chunk_sink_init(&lowersink, csink_put, &lower);
+        tun.wrap = &lower;
+        tun.wrapsink = &lowersink;
+        chunk_sink_init(&sink, csink_put, &tun);
+        rc = api_to_sink(t, &sink, v);
+        /* unwrap: [one-octet varint n][n octets]... */
+        unsigned char un[32];
+        size_t ul = 0, pos = 0;
+        int bad = rc < 0;
+        while (!bad && pos < lower.n) {
+            size_t fl = lower.buf[pos++];
+            if (fl > 10 || fl > lower.n - pos || ul + fl > sizeof un)
+                bad = 1;
+            else {
+                memcpy(un + ul, lower.buf + pos, fl);
+                ul += fl;
+                pos += fl;
+            }
+        }
+        if (bad || ul != (size_t)rn || memcmp(un, ref, (size_t)rn) != 0)
+            vh_fail("to-sink-nested", key, "value=%016" PRIx64 " through a sink that frames its input with varints: rc=%d lower stream %s, "
+                    "expected the pieces of %s", v, rc, vh_hex(lower.buf, lower.n), vh_hex(ref, (size_t)rn));
+    }
     /* decode from an exact-size buffer holding just the encoding */
     unsigned char *d = decblk[rn];
     memcpy(d, ref, (size_t)rn);
